@@ -25,6 +25,7 @@ import (
 	"net/url"
 	"strings"
 	"sync"
+	"sync/atomic"
 	"testing"
 	"time"
 
@@ -39,12 +40,25 @@ type c20Case struct {
 	Stalled int      `json:"stalled"` // subscribers that never read
 	Flood   int      `json:"flood"`   // login events published before the ops (fills a stalled backlog)
 	Ops     []string `json:"ops"`     // ssh x509 x509-kubernetes role refresh awsrole login splogin
+	// Lagging subscribers read, but not while the flood is published (a
+	// receiver that was briefly slow); afterwards they read everything again
+	// and are then as connected as any prompt subscriber
+	Lagging int `json:"lagging"`
 }
 
 type c20Sub struct {
 	mu     sync.Mutex
 	events []eventmon.EventV0
 	client net.Conn
+	paused int32 // 1: the reader does not take the next event
+}
+
+func (s *c20Sub) pause(on bool) {
+	if on {
+		atomic.StoreInt32(&s.paused, 1)
+	} else {
+		atomic.StoreInt32(&s.paused, 0)
+	}
 }
 
 func (s *c20Sub) has(certData []byte) bool {
@@ -119,6 +133,9 @@ func c20Connect(reads bool) *c20Sub {
 			return // from now on this subscriber never reads again
 		}
 		for {
+			for atomic.LoadInt32(&sub.paused) == 1 {
+				time.Sleep(time.Millisecond)
+			}
 			var ev eventmon.EventV0
 			if err := dec.Decode(&ev); err != nil {
 				return
@@ -190,7 +207,7 @@ func c20GetWorld() *vWorld {
 func c20Check(c c20Case) *vResult {
 	res := &vResult{}
 	w := c20GetWorld()
-	res.Desc = fmt.Sprintf("p%d.s%d.f%d|%s", c.Prompt, c.Stalled, c.Flood, strings.Join(c.Ops, ","))
+	res.Desc = fmt.Sprintf("p%d.s%d.l%d.f%d|%s", c.Prompt, c.Stalled, c.Lagging, c.Flood, strings.Join(c.Ops, ","))
 	// a notifier of its own per case: a publisher wedged by an earlier case must not leak into this one
 	eventNotifier = eventnotifier.New(logger)
 	var prompt, all []*c20Sub
@@ -200,6 +217,13 @@ func c20Check(c c20Case) *vResult {
 	for i := 0; i < c.Prompt; i++ {
 		s := c20Connect(true)
 		prompt = append(prompt, s)
+		all = append(all, s)
+	}
+	var lagging []*c20Sub
+	for i := 0; i < c.Lagging; i++ {
+		s := c20Connect(true)
+		s.pause(true)
+		lagging = append(lagging, s)
 		all = append(all, s)
 	}
 	defer func() {
@@ -266,6 +290,25 @@ func c20Check(c c20Case) *vResult {
 			res.label("prompt-subscriber-not-draining")
 			return res
 		}
+	}
+	if len(lagging) > 0 {
+		// the lagging subscribers read again; once they have caught up they must
+		// be served like any other connected subscriber
+		for _, s := range lagging {
+			s.pause(false)
+		}
+		before := prompt
+		prompt = append(append([]*c20Sub{}, prompt...), lagging...)
+		if !syncPrompt() {
+			prompt = before
+			if syncPrompt() {
+				res.violate("caught-up-subscriber-starved", "a subscriber that did not read during %d events and then read everything again received none of the events published during the next 30 s (the other %d prompt subscribers did)", c.Flood, len(before))
+			} else {
+				res.label("prompt-subscriber-not-draining")
+			}
+			return res
+		}
+		res.label("lagging-caught-up")
 	}
 	issued := 0
 	for i, op := range c.Ops {
@@ -412,18 +455,19 @@ func c20Check(c c20Case) *vResult {
 		}
 		// exactly the returned bytes were published (checked above by equality on CertData)
 	}
-	res.NonTrivial = issued > 0 && (c.Prompt+c.Stalled) > 0
+	res.NonTrivial = issued > 0 && (c.Prompt+c.Stalled+c.Lagging) > 0
 	res.label(fmt.Sprintf("issued:%v", issued > 0), fmt.Sprintf("stalled:%v", c.Stalled > 0))
 	return res
 }
 
 func TestVerifC20Publish(t *testing.T) {
 	vRunRapid(t,
-		"rapid: 0-2 prompt + 0-2 stalled subscribers (stalled = never reads, zero-buffer pipe) connected through the notifier's CONNECT handler, 0-24 login events to fill a stalled backlog, then 1-6 ops over the six issuing paths, password login and service-provider login; non-trivial = at least one certificate issued with at least one subscriber; distinct = (subscriber mix, flood, op list)",
+		"rapid: 0-2 prompt + 0-2 stalled subscribers (stalled = never reads, zero-buffer pipe) + 0-2 lagging ones (do not read during the flood, then read everything and count as prompt) connected through the notifier's CONNECT handler, 0-24 login events to fill a stalled backlog, then 1-6 ops over the six issuing paths, password login and service-provider login; non-trivial = at least one certificate issued with at least one subscriber; distinct = (subscriber mix, flood, op list)",
 		func(t *rapid.T) c20Case {
 			return c20Case{
 				Prompt:  rapid.IntRange(0, 2).Draw(t, "prompt"),
 				Stalled: rapid.IntRange(0, 2).Draw(t, "stalled"),
+				Lagging: rapid.SampledFrom([]int{0, 0, 1, 1, 2}).Draw(t, "lagging"),
 				Flood:   rapid.SampledFrom([]int{0, 0, 5, 18, 24}).Draw(t, "flood"),
 				Ops:     rapid.SliceOfN(rapid.SampledFrom([]string{"ssh", "ssh", "x509", "x509-kubernetes", "role", "refresh", "awsrole", "login", "splogin"}), 1, 6).Draw(t, "ops"),
 			}
